@@ -193,38 +193,46 @@ def run(ctx):
     # field-wise homomorphism
     adds = [f for f in P.fns.values() if f.impl_trait in ("Add", "AddAssign") and "ElGamalCiphertext" in (f.impl_self or "") and f.name in ("add", "add_assign")]
     ctx.floor("E6.homomorphic", "Add/AddAssign impls of ElGamalCiphertext", len(adds), 6)
+    # each impl is either field-wise itself or hands (self, rhs) whole and in order to another impl of the family; the
+    # delegation graph is acyclic and every chain ends in a field-wise impl (a cycle is an endless recursion)
+    kind = {}
+    target = {}
     for f in adds:
         ev = evaluate(f)
         ctx.saw(f)
         r = strip_sites(ev.ret)
+        fam = [s_ for _, s_ in sorted(ev.sites.items()) if s_.callee[0] in ("Add::add", "AddAssign::add_assign") and ((s_.raw.get("callee") or {}).get("resolved") or {}).get("key") in {g.key for g in adds}]
+        if fam:
+            s_ = fam[0]
+            roots = [F.projection_root(strip_sites(a)) for a in s_.args]
+            whole = all(roots) and [x[0].a[1] for x in roots] == ["self", "rhs"] and all(x[1] == "" for x in roots)
+            kind[f.key] = "delegates" if whole and len(fam) == 1 else "bad-delegation"
+            target[f.key] = s_.raw["callee"]["resolved"]["key"]
+            continue
         if f.name == "add":
-            if r.op == "call" and B.cname(r) == "Add::add" and not any(t.op == "agg" for t in subterms(r)):
-                # delegating impl: `*self + *rhs` on the same type
-                roots = [F.projection_root(a) for a in r.a[1]]
-                ok = all(roots) and [x[0].a[1] for x in roots] == ["self", "rhs"] and all(x[1] == "" for x in roots)
-                ctx.ob("E6.homomorphic", f.key, ok, "delegates to the by-value Add with (self, rhs) in order", where=where(f))
-                continue
             ok = r.op == "agg" and r.a[0][1:2] == ("ElGamalCiphertext",)
             if ok:
                 fields = dict(zip(r.a[0][3], r.a[1]))
                 ok = _fieldwise(fields.get("c1"), "c1") and _fieldwise(fields.get("c2"), "c2")
-            ctx.ob("E6.homomorphic", f.key, ok, "result fields: %s" % show(r, 5), where=where(f))
+            kind[f.key] = "field-wise" if ok else "other: " + show(r, 4)
         else:
-            # add_assign: effects on *self
             eff = []
-            for bb, s in sorted(ev.sites.items()):
-                if s.callee[0] == "AddAssign::add_assign":
-                    dst = s.raw["args"][0]
-                    tgt = strip_sites(s.args[0])
-                    src = strip_sites(s.args[1])
-                    eff.append((show(tgt, 4), show(src, 4), _field_of(tgt), _field_of(src)))
-            ok = len(eff) == 2 and sorted(e[2] for e in eff) == ["c1", "c2"] and all(e[2] == e[3] for e in eff)
-            if len(eff) == 1 and eff[0][2] is None and eff[0][3] is None:
-                # delegating impl: `*self += *rhs` on the whole values (the by-value AddAssign is checked on its own)
-                sites_ = [s_ for _, s_ in sorted(ev.sites.items()) if s_.callee[0] == "AddAssign::add_assign"]
-                roots = [F.projection_root(strip_sites(a)) for a in sites_[0].args]
-                ok = all(roots) and [x[0].a[1] for x in roots] == ["self", "rhs"] and all(x[1] == "" for x in roots)
-            ctx.ob("E6.homomorphic", f.key, ok, "in-place updates: %s" % [(e[0], e[1]) for e in eff], where=where(f))
+            for bb, s_ in sorted(ev.sites.items()):
+                if s_.callee[0] == "AddAssign::add_assign":
+                    tgt = strip_sites(s_.args[0])
+                    src = strip_sites(s_.args[1])
+                    eff.append((_field_of(tgt), _field_of(src)))
+            ok = len(eff) == 2 and sorted(e[0] for e in eff) == ["c1", "c2"] and all(e[0] == e[1] for e in eff)
+            kind[f.key] = "field-wise" if ok else "other: in-place updates %s" % eff
+    for f in adds:
+        chain = [f.key]
+        cur = f.key
+        while kind.get(cur) == "delegates" and target[cur] not in chain:
+            cur = target[cur]
+            chain.append(cur)
+        cyc = kind.get(cur) == "delegates"
+        ok = kind.get(cur) == "field-wise" and not cyc
+        ctx.ob("E6.homomorphic", f.key, ok, "%s: %s%s" % (f.key, " -> ".join(k_.split(" as ")[-1] if k_ != f.key else "self" for k_ in chain), " -> ... (cycle: endless recursion)" if cyc else " [" + str(kind.get(cur)) + "]"), where=where(f))
     ctx.assume("merlin transcript and scalar_from_bytes_wide are deterministic; soundness rests on discrete log")
 
 
